@@ -63,3 +63,28 @@ def frommatrix(cls, algebra, matrix):
     obj = cls(algebra=algebra, values=matrix[..., 0])
     return obj".
 Proof. reflexivity. Qed.
+Lemma pin_matrixreps_expr_as_matrix : src_matrixreps_expr_as_matrix = "def expr_as_matrix(expr: Callable, *inputs, res_like: 'MultiVector'=None):
+    *rest, x = inputs
+    alg = x.algebra
+    numerical = all((not r.issymbolic for r in rest))
+    if numerical and any((len(r.shape) > 1 for r in rest)):
+        symbolic_rest = [alg.multivector(name=string.ascii_uppercase[i], keys=mv.keys()) for i, mv in enumerate(rest)]
+        symbolic_inputs = [*symbolic_rest, x]
+        A, y = expr_as_matrix(expr, *symbolic_inputs, res_like=res_like)
+        symbols2values = dict(itertools.chain(*(zip(smv.values(), mv.values()) for smv, mv in zip(symbolic_rest, rest))))
+        func = sympy.lambdify(symbols2values.keys(), A, modules={'ImmutableDenseMatrix': list})
+        kwargs = {str(k): v for k, v in symbols2values.items()}
+        A = func(**kwargs)
+        symbols2values.update({v: v for v in x.values()})
+        y = y(**{str(k): v for k, v in symbols2values.items() if k in y.free_symbols})
+        return (A, y)
+    y = expr(*inputs)
+    if res_like is not None:
+        y = alg.multivector({k: sympy.sympify(getattr(y, alg.bin2canon[k])) for k in res_like.keys()})
+    A = sympy.zeros(len(y), len(x)) if not numerical else np.zeros((len(y), len(x)))
+    for i, (blade_y, yi) in enumerate(y.items()):
+        cv = sympy.collect(yi.expand(), x.values())
+        for j, (blade_x, xj) in enumerate(x.items()):
+            A[i, j] = cv.coeff(xj)
+    return (A, y)".
+Proof. reflexivity. Qed.
